@@ -420,6 +420,86 @@ pub(crate) fn shape_11<const F: u32>() {
     sc.finish();
 }
 
+/// S13: THREE live keys in one file; merge of everything with max_file_size 0 (the output rolls over
+/// after every copied entry: three output files - an entry copied AFTER a rollover needs a third key);
+/// every key read back after the merge and after a reopen through the hint files.
+pub(crate) fn shape_13() {
+    const K3: [u8; 3] = [b'a', b'b', b'c'];
+    mfs::__preexisting(dslot(0));
+    let v: [u8; 3] = kani::any();
+    lay_data(dslot(0), 0, K3[0], Some(v[0]));
+    lay_data(dslot(0), 0, K3[1], Some(v[1]));
+    lay_data(dslot(0), 0, K3[2], Some(v[2]));
+    let mut s = open_store(mk_conf_thr(0, 2, false, T_ALL));
+    must(s.w.merge());
+    kani::cover!(mfs::__fs().inodes[dslot(4)].len > 0, "the merge wrote a third output file");
+    let mut i = 0;
+    while i < 3 {
+        let g = must(s.r.get(kb(K3[i])));
+        assert!(v1(&g) == Some(v[i]), "a key reads differently after a merge rolling over into three files");
+        std::mem::forget(g);
+        i += 1;
+    }
+    check_hint_entries();
+    std::mem::forget(s);
+    let s = open_store(mk_conf_thr(u64::MAX, 2, false, T_NONE));
+    let mut i = 0;
+    while i < 3 {
+        let g = must(s.r.get(kb(K3[i])));
+        assert!(v1(&g) == Some(v[i]), "a key reads differently after a merge rolling over into three files and a restart");
+        std::mem::forget(g);
+        i += 1;
+    }
+    std::mem::forget(s);
+}
+
+/// 3-byte value.
+pub(crate) fn kb3(v: [u8; 3]) -> Bytes {
+    let mut d = [0u8; bytes::BCAP];
+    d[0] = v[0];
+    d[1] = v[1];
+    d[2] = v[2];
+    Bytes::__from_array(d, 3)
+}
+fn is3(o: &Option<Bytes>, v: [u8; 3]) -> bool {
+    match o {
+        Some(b) => b.len() == 3 && b.__byte(0) == v[0] && b.__byte(1) == v[1] && b.__byte(2) == v[2],
+        None => false,
+    }
+}
+
+/// S12 (C01: "larger than any internal buffer or than the configured file size"): empty directory,
+/// max_file_size 0; put a with a 3-byte value - its record (8 bytes) is as long as the (scaled) write
+/// buffer, so `BufWriter` hands it to the file outside its buffer / in more than one call, it is
+/// longer than one (scaled) `BufReader` fill, and it alone exceeds max_file_size; read back at once;
+/// a small put of b (rollover again); both read back; reopen through the real scan; both read back
+/// (a again through a fresh reader that has to map the file).
+pub(crate) fn shape_12() {
+    let mut sc = Sc::<0>::open([None, None], 0, false, T_NONE);
+    let va: [u8; 3] = kani::any();
+    must(sc.s.w.put(kb(K[0]), kb3(va)));
+    let g = must(sc.s.r.get(kb(K[0])));
+    assert!(is3(&g, va), "get of an entry as large as the write buffer differs from what was put");
+    std::mem::forget(g);
+    let vb: u8 = kani::any();
+    must(sc.s.w.put(kb(K[1]), kb(vb)));
+    let g = must(sc.s.r.get(kb(K[0])));
+    assert!(is3(&g, va), "get of the large entry differs after a later write");
+    std::mem::forget(g);
+    let g = must(sc.s.r.get(kb(K[1])));
+    assert!(v1(&g) == Some(vb), "get of the small entry differs");
+    std::mem::forget(g);
+    kani::cover!(sc.s.w.active_fileid == 2, "both writes rolled over");
+    sc.reopen(0, T_NONE);
+    let g = must(sc.s.r.get(kb(K[0])));
+    assert!(is3(&g, va), "get of the large entry differs after a reopen");
+    std::mem::forget(g);
+    let g = must(sc.s.r.get(kb(K[1])));
+    assert!(v1(&g) == Some(vb), "get of the small entry differs after a reopen");
+    std::mem::forget(g);
+    sc.finish();
+}
+
 // ------------------------------------------------------------------------------------------------
 // Crash (C03), power loss (C09) and fault (C20) machinery.
 
